@@ -5982,7 +5982,9 @@ impl BytecodeVM {
                 }
 
                 // Regular data property
-                obj_ref.borrow_mut().set_property(prop_key, value);
+                let mut obj_mut = obj_ref.borrow_mut();
+                obj_mut.reserve_array_growth(&prop_key, &value)?;
+                obj_mut.set_property(prop_key, value);
                 Ok(())
             }
             JsValue::Null => Err(JsError::type_error("Cannot set properties of null")),
